@@ -267,10 +267,17 @@ def gen_rate_case(rng, kind=None, max_size=8, scale=None, state=None):
         # a whole team of sigma-0 players (its variance comes from tau alone)
         z = rng.randrange(len(nums))
         nums[z] = [(mu, 0.0 if not isinstance(sg, int) else 0) for mu, sg in nums[z]]
+    if rng.random() < 0.04:
+        # one player of sigma 0 beside team-mates of positive sigma: the team's variance is positive, so the game is valid
+        # whatever tau is (the player's share of the update is 0)
+        multi = [ti for ti, t in enumerate(nums) if len(t) >= 2 and sum(1 for _, sg in t if sg > 0) >= 2]
+        if multi:
+            z = rng.choice(multi)
+            j = rng.randrange(len(nums[z]))
+            nums[z][j] = (nums[z][j][0], 0.0)
     ids = "same" if rng.random() < 0.05 else "fresh"
     teams = rating_vals(kind, nums, rng, ids=ids)
     ranks, scores = gen_outcome(rng, len(shape))
-    # sigma = 0 needs an effective tau > 0
     return {"op": "rate", "kind": kind, "st": st, "args": [teams, ranks, scores, tau, lim]}
 
 
